@@ -354,7 +354,7 @@ func c20Check(c c20Case) *vResult {
 			}
 		}
 		if missing >= 0 {
-			res.violate("not-published-by-response:"+op, "op %d (%s): when the response body was written, prompt subscriber %d had not been sent an event carrying the returned certificate bytes (waited 3 s)", i, op, missing)
+			res.violate("not-published-by-response:"+op, "op %d (%s): when the response body was written, prompt subscriber %d had not been sent an event carrying the returned certificate bytes (waited 15 s)", i, op, missing)
 			return res
 		}
 		if atWrite != nil && !bytes.Equal(atWrite, final) {
